@@ -148,9 +148,9 @@ LEAF_NAMES = ["a", "b", "c", "d", "e", "x", "y", "z", "p", "q", "util", "core", 
 # legal but unusual identifiers: non-ASCII first letters (sort after every ASCII name), combining marks and U+00B7 (identifier
 # characters that are not \w / word characters), names differing only in case or in the zero padding of a number,
 # names starting with "py" / containing "init"
-UNUSUAL_NAMES = ["größe", "überblick", "данные", "ข้อมูล", "a·b", "Models", "models", "m01", "Ab", "py", "pyx", "init_x"]
+UNUSUAL_NAMES = ["größe", "überblick", "данные", "ข้อมูล", "a·b", "Models", "models", "m01", "Ab", "py", "pyx", "init_x", "a-b", "c++"]  # the last two: directory names that are no identifiers ("-" sorts below ".", "+" is a regex metacharacter)
 LEAF_NAMES = LEAF_NAMES + UNUSUAL_NAMES
-COLLIDING = ["a", "ab", "a_b", "Ab", "a·b", "m1", "m01", "models", "Models", "py", "pyx"]
+COLLIDING = ["a", "ab", "a_b", "Ab", "a·b", "a-b", "m1", "m01", "models", "Models", "py", "pyx", "c", "c++"]
 TWINS = {"m1": "m01", "m01": "m1", "models": "Models", "Models": "models", "ab": "Ab", "Ab": "ab", "a·b": "a", "py": "pyx"}
 
 
